@@ -144,7 +144,7 @@ def h_tridonic_single(ctx, shape):
                 out["r"] = t.result() if t.exception() is None else None
             else:
                 t.cancel()
-            out["outstanding"] = len(d._outstanding)
+            out["outstanding"] = rigs.held(d)["entries"]
             out["locked"] = d.transaction_lock.locked()
             d.disconnect()
             await vloop.settle(2)
@@ -230,7 +230,7 @@ def h_tridonic_pairing(ctx, mode):
                 await asyncio.sleep(0.5)
                 out["r1"] = None
                 out["r2"] = t2.result() if t2.done() and not t2.exception() else repr(t2)
-                out["outstanding"] = len(d._outstanding)
+                out["outstanding"] = rigs.held(d)["entries"]
                 d.disconnect()
                 await vloop.settle(2)
                 return
@@ -265,7 +265,7 @@ def h_tridonic_pairing(ctx, mode):
             await asyncio.sleep(0.5)
             out["r1"] = t1.result() if t1.done() and not t1.exception() else repr(t1)
             out["r2"] = t2.result() if t2.done() and not t2.exception() else repr(t2)
-            out["outstanding"] = len(d._outstanding)
+            out["outstanding"] = rigs.held(d)["entries"]
             d.disconnect()
             await vloop.settle(2)
         st, r = call(vloop.run, main)
@@ -527,7 +527,7 @@ class _DaliServerConn:
     def recv(self, n):
         # stream socket: at most n bytes of what has arrived
         if not self.queue:
-            raise RuntimeError("recv() with nothing to read: the client would block forever")
+            raise rigs._env(RuntimeError("recv() with nothing to read: the client would block forever"))
         out, self.queue = self.queue[:n], self.queue[n:]
         return rigs.mkbytes(out)
 
